@@ -194,6 +194,13 @@ def apply(pool, ev):
         old = o.__dict__.get("kids")
         o.kids = list(old) if old is not None else []
         return ("trait", o, "kids"), True
+    if k == "kids_assign2":
+        old = o.__dict__.get("kids")
+        new = [pool[ev[2]], pool[ev[2]]]
+        eq = old is not None and len(old) == 2 and \
+            all(x is pool[ev[2]] for x in old)
+        o.kids = new
+        return ("trait", o, "kids"), eq
     if k == "kids_assign":
         old = o.__dict__.get("kids")
         new = [pool[ev[2]]]
@@ -248,6 +255,7 @@ def event_menu(names, idx=(0, 1)):
             evs += [("kids_remove", i, j) for j in allp]
             evs += [("kids_setslice", i, j) for j in allp[:2]]
             evs += [("kids_assign", i, j) for j in allp[:2]]
+            evs += [("kids_assign2", i, j) for j in allp[1:2]]
             evs += [("kids_pop", i), ("kids_del_ext", i), ("kids_mul", i),
                     ("kids_assign_eq", i), ("kids_reverse", i)]
             evs += [("kids_dup_slice", i, j) for j in allp[:2]]
@@ -385,7 +393,7 @@ def shape(pool):
         for i, o in enumerate(objs):
             if o is x:
                 return i
-        return "?"
+        return -1
     out = []
     for o in objs:
         d = o.__dict__
